@@ -83,6 +83,7 @@ Definition tfun (tag : Z) : Z -> rv -> rv :=
   | 3 => lift1 (rdd_filter (pfun 2))
   | 4 => lift1 (fun r => rdd_map (efun 2) (rdd_filter (pfun 3) r))
   | 5 => fun t a => match a with RRdd r => RRdd (rdd_map (on_int (fun x => VInt (x + t))) r) | RNone => RNone end
+  | 6 => fun _ _ => RNone          (* lambda rdd: None -- children take the early return of _step *)
   | _ => fun _ _ => RNone
   end.
 
